@@ -1,12 +1,81 @@
 import OxiVerif.Model.C21
-import OxiVerif.Lemmas.C09
 /-!
 Helper lemmas for C21: what `ContentTokenizer::next_token` (model `nextTok`) does on the bytes of
 one emitted piece followed by arbitrary further input.
 -/
 namespace OxiVerif.C21
-open OxiVerif.Model (showNat hexBytesUpper hexByteUpper hexDigitUpper)
 open OxiVerif.Spec.Syntax (isDigit allDigits digitsVal)
+
+/-! ### decimal digits of `showNat` (proofs as in `Lemmas/C09.lean`, restated for the local copy) -/
+
+theorem natDigitsAux_acc (fuel n : Nat) (acc : List Nat) :
+    natDigitsAux fuel n acc = natDigitsAux fuel n [] ++ acc := by
+  induction fuel generalizing n acc with
+  | zero => simp [natDigitsAux]
+  | succ f ih =>
+    unfold natDigitsAux
+    split
+    · simp
+    · rw [ih (n / 10) ((48 + n % 10) :: acc), ih (n / 10) [48 + n % 10]]; simp
+
+theorem allDigits_append (a b : List Nat) (ha : allDigits a = true) (hb : allDigits b = true) :
+    allDigits (a ++ b) = true := by
+  induction a with
+  | nil => simpa using hb
+  | cons x xs ih =>
+    simp only [allDigits, Bool.and_eq_true] at ha
+    simp [allDigits, ha.1, ih ha.2]
+
+theorem natDigitsAux_digits (fuel n : Nat) (h : n ≤ fuel) :
+    allDigits (natDigitsAux fuel n []) = true := by
+  induction fuel generalizing n with
+  | zero =>
+    have : n = 0 := by omega
+    subst this; decide
+  | succ f ih =>
+    unfold natDigitsAux
+    split
+    · simp [allDigits, isDigit]; omega
+    · rw [natDigitsAux_acc]
+      refine allDigits_append _ _ (ih (n / 10) (by omega)) ?_
+      simp [allDigits, isDigit]; omega
+
+theorem showNat_digits (n : Nat) : allDigits (showNat n) = true := by
+  unfold showNat; exact natDigitsAux_digits n n (Nat.le_refl _)
+
+theorem digitsVal_append (acc : Nat) (a b : List Nat) :
+    digitsVal (a ++ b) acc = digitsVal b (digitsVal a acc) := by
+  induction a generalizing acc with
+  | nil => rfl
+  | cons x xs ih => simp [digitsVal, ih]
+
+theorem natDigitsAux_val (fuel n : Nat) (h : n ≤ fuel) :
+    digitsVal (natDigitsAux fuel n []) 0 = n := by
+  induction fuel generalizing n with
+  | zero =>
+    have : n = 0 := by omega
+    subst this; decide
+  | succ f ih =>
+    unfold natDigitsAux
+    split
+    · simp [digitsVal]
+    · rw [natDigitsAux_acc, digitsVal_append, ih (n / 10) (by omega)]
+      simp [digitsVal]; omega
+
+theorem showNat_val (n : Nat) : digitsVal (showNat n) 0 = n := by
+  unfold showNat; exact natDigitsAux_val n n (Nat.le_refl _)
+
+theorem natDigitsAux_ne_nil (fuel n : Nat) : natDigitsAux fuel n [] ≠ [] := by
+  cases fuel with
+  | zero => simp [natDigitsAux]
+  | succ f =>
+    unfold natDigitsAux
+    split
+    · simp
+    · rw [natDigitsAux_acc]; simp
+
+theorem showNat_ne_nil (n : Nat) : showNat n ≠ [] := by
+  unfold showNat; exact natDigitsAux_ne_nil n n
 
 /-! ### literal strings -/
 
@@ -124,7 +193,7 @@ theorem readHexStr_upper (bs R : List Nat) (hb : ∀ b ∈ bs, b < 256) :
       unfold hexDigitUpper; split <;> omega
     have v1 := hexVal_upper (b / 16 % 16) (Nat.mod_lt _ (by omega))
     have v2 := hexVal_upper (b % 16) (Nat.mod_lt _ (by omega))
-    simp only [hexBytesUpper, hexByteUpper, List.cons_append, List.nil_append]
+    simp only [hexBytesUpper, List.cons_append]
     rw [readHexStr]
     simp only [beq_iff_eq, d1, if_false, v1]
     rw [readHexStr]
@@ -138,7 +207,7 @@ theorem hexBytesUpper_head_ne_lt (bs R : List Nat) :
   cases bs with
   | nil => simp [hexBytesUpper]
   | cons b r =>
-    simp only [hexBytesUpper, hexByteUpper, List.cons_append]
+    simp only [hexBytesUpper, List.cons_append]
     intro h
     injection h with h1 _
     unfold hexDigitUpper at h1
